@@ -282,6 +282,13 @@ func registerIntrinsics(e *Engine) {
 		}
 		return nil
 	}
+	r[vfPkg+".PreemptionBound"] = func(e *Engine, fr *frame, args []Value, site ssa.CallInstruction) Value {
+		e.hostState["preemptBudget"] = asInt(args[0])
+		if s, _ := e.hostState["sched"].(*schedState); s != nil {
+			s.budget = asInt(args[0])
+		}
+		return nil
+	}
 	r[vfPkg+".ExpectPanic"] = func(e *Engine, fr *frame, args []Value, site ssa.CallInstruction) Value {
 		e.hostState["expectPanic"] = true
 		return nil
